@@ -34,7 +34,8 @@ def plan(tier, seed):
             + [{"kind": "stats", "n": 60 if tier == "quick" else 600} for _ in range(n // 2)]
             + [{"kind": "numeric", "n": 1500 if tier == "quick" else 20000} for _ in range(n // 4)]
             + [{"kind": "histories", "n": 300 if tier == "quick" else 3000} for _ in range(2 if tier == "quick" else 8)]
-            + [{"kind": "bits"}])
+            + [{"kind": "bits"}]
+            + [{"kind": "qualified", "modules": [m], "sample": 40 if tier == "quick" else None} for m in (["List", "Set", "Stat", "Math"], ["Bitwise", "Core", "Type", "Predicate"])][0:2])
 
 
 def gen_elem(r, kind):
@@ -248,6 +249,27 @@ def run_stats(spec, ctx):
             R.expect("median_high(%s)" % lp, want_high, "median_high", ("median_high", lp))
             R.expect("min(%s)" % lp, srt[0], "min-list", ("min", lp), exact_kinds=True)
             R.expect("max(%s)" % lp, srt[-1], "max-list", ("max", lp), exact_kinds=True)
+        # the same functions through the module object in a non-legacy interpreter
+        lp = src(L(list(a)))
+        for fn, want in (("mean", want_mean), ("median", want_median), ("median_low", want_low), ("median_high", want_high)):
+            R.expect("require Stat; Stat->%s(%s)" % (fn, lp), want, fn + ":qualified", (fn + "-q", lp), modern=True)
+        # geometric and harmonic mean of positive numbers, both flavours, all permutations agree (to rounding)
+        pos = [("int", abs(x[1]) + 1) if x[0] == "int" else ("dec", abs(x[1]) + 0.5) for x in a]
+        gm = math.exp(sum(math.log(float(x[1])) for x in pos) / n)
+        hm = n / sum(1.0 / float(x[1]) for x in pos)
+        for p in perms[:6]:
+            pp = [("int", abs(x[1]) + 1) if x[0] == "int" else ("dec", abs(x[1]) + 0.5) for x in p]
+            lpp = src(L(pp))
+            for text, want, modern in (("geometric_mean(%s)" % lpp, gm, False), ("harmonic_mean(%s)" % lpp, hm, False),
+                                       ("require Stat; Stat->geometric_mean(%s)" % lpp, gm, True), ("require Stat; Stat->harmonic_mean(%s)" % lpp, hm, True)):
+                o = R.ev(text, modern)
+                ctx.count("evaluations")
+                ctx.case(("approx", text))
+                key = text.split("(")[0].replace("require Stat; Stat->", "") + (":qualified" if modern else "")
+                if o.kind != "value" or o.value.type() not in ("decimal", "int"):
+                    ctx.violation("C19:%s:raises" % key, "%s -> %s" % (text, core.safe_str(o.exc if o.kind != "value" else o.value, 100)), {"src": text})
+                elif abs(float(o.value.value) - want) > 1e-9 * max(1.0, abs(want)):
+                    ctx.violation("C19:" + key, "%s evaluated to %s, definition says %r" % (text, o.value, want), {"src": text})
         ctx.count("permutation_groups")
     ctx.sample({"example": "median_low([3, 1, 2]) over all permutations"})
 
@@ -362,6 +384,9 @@ def run_histories(spec, ctx):
 
 
 def run_shard(spec, ctx):
+    if spec["kind"] == "qualified":
+        from cklmon import matrix
+        return matrix.unbound_names_in_modules(ctx, "C19", spec["modules"][0], sample=spec.get("sample"))
     if spec["kind"] == "histories":
         return run_histories(spec, ctx)
     {"collections": run_collections, "stats": run_stats, "numeric": run_numeric, "bits": run_bits}[spec["kind"]](spec, ctx)
@@ -372,6 +397,8 @@ def finalize(merged, tier):
     reasons = []
     if c.get("history_programs", 0) == 0:
         reasons.append("no set-history programs")
+    if c.get("qualified_calls", 0) == 0:
+        reasons.append("no module-qualified calls in a non-legacy interpreter")
     if c.get("evaluations", 0) == 0 or c.get("permutation_groups", 0) == 0:
         reasons.append("no evaluations / permutation groups")
     if not any(ex.get("bits_done") for spec, ex in merged["shard_docs"]):
